@@ -143,6 +143,47 @@ func sweepOps() []op {
 		)
 	}
 	o = append(o, hostileAin()...)
+	o = append(o, structuralOps(true)...)
+	return o
+}
+
+// ainStructs: structural variants of the account input (splitAccountInput) + account input with an account output.
+var ainStructs = []string{"split", "split-rev", "split3", "dup", "extra-zero", "zero-first", "extra-unit", "plus-aout"}
+
+// structuralOps: every structural variant over several honest transactions. hidden=false: only what needs no hidden
+// output (the genesis-level search).
+func structuralOps(hidden bool) []op {
+	var o []op
+	bases := []op{
+		{Kind: "ain", From: "B", Tok: "coin", Dests: []dest{{"W1", 0, "50c"}}, Fee: "min"},
+		{Kind: "ain", From: "B", Tok: "coin", Dests: []dest{{"W1", 1, "20c"}, {"W2", 2, "unit"}}, Fee: "min+price"},
+		{Kind: "ain", From: "C", Tok: "coin", Dests: []dest{{"W0", 0, "1c"}, {"W1", 1, "2c"}, {"W2", 2, "3c"}}, Fee: "min"},
+	}
+	if hidden {
+		bases = append(bases, op{Kind: "ain", From: "A", Tok: "iss", Dests: []dest{{"W2", 0, "10c"}}, Fee: "min"},
+			op{Kind: "ain", From: "B", Tok: "coin", Dests: []dest{{"W1", 0, "all"}}, Fee: "min"})
+	}
+	for _, b := range bases {
+		for _, st := range ainStructs {
+			v := b
+			v.Struct = st
+			o = append(o, v)
+		}
+	}
+	if !hidden {
+		return o
+	}
+	for _, ring := range []int{1, 3} {
+		o = append(o,
+			op{Kind: "uspend", W: "W0", Tok: "coin", Ring: ring, To: "C", Amt: "10c", Fee: "min", Struct: "two-aout-same"},
+			op{Kind: "uspend", W: "W0", Tok: "coin", Ring: ring, To: "C", Amt: "10c", Fee: "min", Struct: "two-aout-diff"},
+			op{Kind: "uspend", W: "W0", Tok: "coin", Ring: ring, To: "C", Amt: "all", Fee: "min", Struct: "two-aout-diff"},
+			op{Kind: "uspend", W: "W0", Tok: "iss", From: "A", Ring: ring, To: "C", Amt: "5c", Fee: "min", Struct: "two-aout-same"},
+			op{Kind: "uspend", W: "W0", Tok: "coin", Ring: ring, From: "B", To: "W1.1", Amt: "10c", Fee: "min", Struct: "mix-ain"},
+			op{Kind: "uspend", W: "W0", Tok: "coin", Ring: ring, Nin: 2, To: "W1.1", Amt: "10c", Fee: "min", Struct: "reorder"},
+			op{Kind: "uspend", W: "W0", Tok: "coin", Ring: ring, Nin: 2, To: "C", Amt: "all", Fee: "min", Struct: "reorder"},
+		)
+	}
 	return o
 }
 
@@ -164,7 +205,8 @@ func genesisOps() []op {
 		{Kind: "ain", From: "B", Tok: "coin", Dests: []dest{{"W1", 0, "unit+1"}}, Fee: "min"},
 		{Kind: "ain", From: "B", Tok: "coin", Dests: []dest{{"W1", 0, "50c"}}, Fee: "min+unit"},
 	}
-	return append(o, hostileAin()...)
+	o = append(o, hostileAin()...)
+	return append(o, structuralOps(false)...)
 }
 
 func histAcct(quick bool) []op {
@@ -202,6 +244,7 @@ func histConf() []op {
 		{Kind: "uspend", W: "W0", Tok: "coin", Ring: 3, Nin: 2, To: "W2.2", Amt: "all", Fee: "min"},
 		{Kind: "lie", W: "W0", Tok: "coin", Ring: 3, To: "W2.0", Arg: "1000c"},
 		{Kind: "hostile", Var: "fee-uncommitted", W: "W1", Tok: "coin", Ring: 3, To: "W2.0"},
+		{Kind: "ain", From: "C", Tok: "coin", Dests: []dest{{"W2", 1, "40c"}}, Fee: "min", Struct: "split-rev"}, // two account inputs
 	}
 }
 
